@@ -11,6 +11,13 @@ order and repetition are arbitrary byte strings.  Nothing here goes through libs
 Node kinds: d dir, f regular file, l symlink, b/c block/char device, p fifo, s socket.
 `xattrs`: list of (key-with-prefix bytes, value bytes); prefixes user./trusted./security. only.
 `entry_type` overrides the type stored in the *directory entry* (default: the inode's basic type).
+
+Deliberate damage (all optional, default none — the image is consistent):
+`copy_fail = i`   (regular file) block `i`'s size word claims more bytes than a block holds: the data reader fails there
+                   with SQFS_ERROR_OVERFLOW after blocks 0..i-1 have been delivered;
+`xattr_fail`      `("index",)`: the inode's xattr index lies beyond the id table; `("key", k)`: the `k`-th key of the
+                   inode's xattr set carries an unknown prefix id — the reader delivers `k` pairs, then fails;
+`link_of = node`  the directory entry refers to the inode already written for `node` (a hard link).
 """
 import struct
 
@@ -22,7 +29,7 @@ NOFRAG = 0xFFFFFFFF
 
 class Node:
     def __init__(self, name, kind, payload=b"", perm=None, uid=0, gid=0, mtime=0, devno=0, xattrs=(), children=(),
-                 entry_type=None):
+                 entry_type=None, copy_fail=None, xattr_fail=None, link_of=None):
         self.name = bytes(name)
         self.kind = kind
         self.payload = bytes(payload)
@@ -31,6 +38,19 @@ class Node:
         self.xattrs = [(bytes(k), bytes(v)) for k, v in xattrs]
         self.children = list(children) if kind == "d" else []
         self.entry_type = entry_type
+        self.copy_fail = copy_fail if kind == "f" else None
+        self.xattr_fail = xattr_fail
+        self.link_of = link_of
+
+    def copy_fail_bytes(self, block_size=4096):
+        """bytes of the content delivered before the damaged block (`Attr.copyFail` of the model)"""
+        return None if self.copy_fail is None else min(self.copy_fail * block_size, len(self.payload))
+
+    def xattr_fail_count(self):
+        """pairs delivered before the xattr reader fails (`Attr.xattrFail` of the model)"""
+        if self.xattr_fail is None:
+            return None
+        return 0 if self.xattr_fail[0] == "index" else min(self.xattr_fail[1], len(self.xattrs))
 
     # ---- the token format of `sqfsmodel c06` (preorder)
     def tokens(self):
@@ -39,6 +59,12 @@ class Node:
         xa = ",".join("%s=%s" % (h(k), h(v)) for k, v in self.xattrs) or "-"
         out = ["%s:%s:%s:%d:%d:%d:%d:%d:%s:%d" % (self.kind, h(self.name), h(self.payload), self.perm, self.uid, self.gid,
                                                   self.mtime, self.devno, xa, len(self.children))]
+        cf, xf = self.copy_fail_bytes(), self.xattr_fail_count()
+        st = getattr(self, "_start", None) if self.kind == "f" else None
+        if cf is not None or xf is not None or st is not None:
+            out[0] += ":%s:%s" % ("-" if cf is None else cf, "-" if xf is None else xf)
+        if st is not None:
+            out[0] += ":%d" % st                   # where forge() put the data: the key of rdsquashfs' qsort(compare_files)
         for c in self.children:
             out += c.tokens()
         return out
@@ -74,6 +100,7 @@ def forge(root, block_size=4096, mtime=0, no_xattr_table=False):
     ids = []
     xattr_sets = []                         # list of tuple(sorted kv) -> index
     counter = [0]
+    last_start = [0]
 
     def idx_of(v):
         v &= 0xFFFFFFFF
@@ -82,19 +109,25 @@ def forge(root, block_size=4096, mtime=0, no_xattr_table=False):
         return ids.index(v)
 
     def xattr_idx(n):
+        if n.xattr_fail is not None and n.xattr_fail[0] == "index":
+            return 0x00FFFFF0                   # far beyond any id table this forge writes
         if not n.xattrs:
             return NOFRAG
-        key = tuple(n.xattrs)
+        bad = n.xattr_fail[1] if n.xattr_fail is not None and n.xattr_fail[0] == "key" else None
+        key = (tuple(n.xattrs), bad)
         if key not in xattr_sets:
             xattr_sets.append(key)
         return xattr_sets.index(key)
 
     def write_inode(n, parent_inum):
         """writes n's subtree (children first), returns (inode ref, inode number, basic type)"""
+        if n.link_of is not None and getattr(n.link_of, "_ref", None) is not None and n.kind != "d":
+            n._start = getattr(n.link_of, "_start", None)
+            return n.link_of._ref                      # hard link: same inode
         counter[0] += 1
         inum = counter[0]
-        ext = bool(n.xattrs)
         xi = xattr_idx(n)
+        ext = xi != NOFRAG
         listing = None
         if n.kind == "d":
             ents = []
@@ -124,11 +157,20 @@ def forge(root, block_size=4096, mtime=0, no_xattr_table=False):
             else:
                 body = struct.pack("<IIHHI", dblk, 2, dsz, doff, parent_inum)
         elif n.kind == "f":
+            # strictly increasing from file to file (a pad byte behind a file without stored data): rdsquashfs unpacks in
+            # this order, without ties
+            while 96 + len(data) <= last_start[0]:
+                data.append(0)
             start = 96 + len(data)
+            last_start[0] = start
+            n._start = start
             sizes = []
             for i in range(0, len(n.payload), block_size):
                 chunk = n.payload[i:i + block_size]
-                if chunk.count(0) == len(chunk) and len(chunk) == block_size:
+                if n.copy_fail is not None and i // block_size == n.copy_fail:
+                    data.extend(chunk)
+                    sizes.append((block_size + 1) | (1 << 24))     # more than a block can hold
+                elif chunk.count(0) == len(chunk) and len(chunk) == block_size:
                     sizes.append(0)                      # sparse block
                 else:
                     data.extend(chunk)
@@ -147,8 +189,15 @@ def forge(root, block_size=4096, mtime=0, no_xattr_table=False):
         else:
             body = struct.pack("<I", 1) + (struct.pack("<I", xi) if ext else b"")
         inodes.add(hdr + body)
-        return ref, inum, BASIC[n.kind]
+        n._ref = (ref, inum, BASIC[n.kind])
+        return n._ref
 
+    def clear(n):
+        n._ref = None
+        n._start = None
+        for c in n.children:
+            clear(c)
+    clear(root)
     root_ref, _, _ = write_inode(root, 0)
     root_inum = counter[0]
     # root's parent_inode field is inode_count + 1 by convention; irrelevant for the reader
@@ -175,16 +224,18 @@ def forge(root, block_size=4096, mtime=0, no_xattr_table=False):
         kv = _Meta()
         descs = []
         kv_start = len(img)
-        for s in xattr_sets:
+        for s, bad in xattr_sets:
             blk, off = kv.pos()
             size = 0
-            for k, v in s:
+            for j, (k, v) in enumerate(s):
                 for pi, p in enumerate(PREFIXES):
                     if k.startswith(p):
                         break
                 else:
                     raise ValueError("unsupported xattr prefix: %r" % k)
                 rest = k[len(p):]
+                if bad is not None and j == bad:
+                    pi = 0x0055                                    # no such prefix id
                 e = struct.pack("<HH", pi, len(rest)) + rest + struct.pack("<I", len(v)) + v
                 kv.add(e)
                 size += len(e)
@@ -215,6 +266,13 @@ def forge(root, block_size=4096, mtime=0, no_xattr_table=False):
     if len(img) % 4096:
         img += b"\0" * (4096 - len(img) % 4096)
     return bytes(img)
+
+
+def has_xattr_table(root, no_xattr_table=False):
+    """does `forge(root)` write an xattr table (else the super block says SQFS_FLAG_NO_XATTRS)?"""
+    def any_x(n):
+        return (bool(n.xattrs) and not (n.xattr_fail is not None and n.xattr_fail[0] == "index")) or any(any_x(c) for c in n.children)
+    return any_x(root) and not no_xattr_table
 
 
 if __name__ == "__main__":
